@@ -326,8 +326,8 @@ class Gen:
         return self.call_of(sc, name, kinds, d)
 
     # ---- paths and updates
-    def path_suffix(self, sc, d):
-        base = self.pick([".", self.sub(sc, d), ".", "."])
+    def path_suffix(self, sc, d, path=False):
+        base = self.pick([".", self.sub(sc, d, path), ".", "."])   # in a path expression the base is one, too
         if base == ".":
             base = ""
         n = self.pick([1, 1, 2, 3])
@@ -359,7 +359,7 @@ class Gen:
     def path_term(self, sc, d):
         r = self.rng.random()
         if r < 0.25:
-            return self.path_suffix(sc, d)
+            return self.path_suffix(sc, d, True)
         if r < 0.4:
             return "%s | %s" % (self.sub(sc, d, True), self.term(sc, d - 1, True))
         if r < 0.5:
